@@ -9,14 +9,21 @@ pub mod c02;
 pub mod c03;
 pub mod c04;
 pub mod c07;
+#[cfg(feature = "std")]
 pub mod c08;
+#[cfg(feature = "std")]
 pub mod c09;
+#[cfg(any(feature = "std", feature = "nostd-spin"))]
 pub mod c10;
+#[cfg(feature = "std")]
 pub mod c11;
+#[cfg(any(feature = "std", feature = "nostd-spin"))]
 pub mod c12;
+#[cfg(feature = "std")]
 pub mod c13;
 pub mod c14;
 pub mod c18;
+#[cfg(feature = "std")]
 pub mod c20;
 
 pub fn run(ctx: &Ctx) -> i32 {
@@ -26,14 +33,21 @@ pub fn run(ctx: &Ctx) -> i32 {
         "C03" => c03::run(ctx),
         "C04" => c04::run(ctx),
         "C07" => c07::run(ctx),
+        #[cfg(feature = "std")]
         "C08" => c08::run(ctx),
+        #[cfg(feature = "std")]
         "C09" => c09::run(ctx),
+        #[cfg(any(feature = "std", feature = "nostd-spin"))]
         "C10" => c10::run(ctx),
+        #[cfg(feature = "std")]
         "C11" => c11::run(ctx),
+        #[cfg(any(feature = "std", feature = "nostd-spin"))]
         "C12" => c12::run(ctx),
+        #[cfg(feature = "std")]
         "C13" => c13::run(ctx),
         "C14" => c14::run(ctx),
         "C18" => c18::run(ctx),
+        #[cfg(feature = "std")]
         "C20" => c20::run(ctx),
         other => {
             eprintln!("rt: property {other} is not served by this engine");
@@ -51,14 +65,21 @@ pub fn replay_case(prop: &str, sub: &str, case: Value) -> Result<(), String> {
         "C03" => c03::replay(sub, case),
         "C04" => c04::replay(sub, case),
         "C07" => c07::replay(sub, case),
+        #[cfg(feature = "std")]
         "C08" => c08::replay(sub, case),
+        #[cfg(feature = "std")]
         "C09" => c09::replay(sub, case),
+        #[cfg(any(feature = "std", feature = "nostd-spin"))]
         "C10" => c10::replay(sub, case),
+        #[cfg(feature = "std")]
         "C11" => c11::replay(sub, case),
+        #[cfg(any(feature = "std", feature = "nostd-spin"))]
         "C12" => c12::replay(sub, case),
+        #[cfg(feature = "std")]
         "C13" => c13::replay(sub, case),
         "C14" => c14::replay(sub, case),
         "C18" => c18::replay(sub, case),
+        #[cfg(feature = "std")]
         "C20" => c20::replay(sub, case),
         other => Err(format!("HARNESS: no replay for property {other}")),
     }
@@ -134,8 +155,11 @@ pub fn verdict_class(v: &crate::model::Verdict) -> &'static str {
 /// Entry point of crash-isolated worker processes (`rt --worker <mode>`).
 pub fn worker(mode: &str) {
     match mode {
+        #[cfg(feature = "std")]
         "c09" => c09::worker_main(),
+        #[cfg(feature = "std")]
         "c11" => c11::worker_main(),
+        #[cfg(feature = "std")]
         "c13" => c13::worker_main(),
         other => {
             eprintln!("rt: unknown worker mode {other}");
@@ -233,4 +257,79 @@ pub fn fuzz_campaign(ctx: &Ctx, runs: u64) -> vcore::SubReport {
     }
     let _ = std::fs::remove_dir_all(&corpus);
     rep
+}
+
+/// Sub-reports of the same property from binaries of this harness built against other
+/// feature sets of the library (no_std + spin-lock, no_std without a mutex API). The check
+/// driver builds them into harness/target-<variant>/ for the thorough tier.
+pub fn variant_reports(ctx: &Ctx, variants: &[&str]) -> Vec<vcore::SubReport> {
+    let mut out = vec![];
+    if ctx.tier != vcore::Tier::Thorough || crate::variant() != "std" {
+        return out;
+    }
+    for v in variants {
+        let exe = vcore::verif_root().join("harness").join(format!("target-{v}")).join("release").join("rt");
+        let name = format!("variant:{v}");
+        if !exe.exists() {
+            let mut r = vcore::SubReport::new(&name);
+            r.inconclusive = Some(format!("HARNESS: {} was not built", exe.display()));
+            out.push(r);
+            continue;
+        }
+        let res = std::process::Command::new(&exe)
+            .args(["--sub-json", &ctx.prop, ctx.tier.name()])
+            .env("VERIF_SEED", ctx.seed.to_string())
+            .output();
+        match res {
+            Ok(o) => {
+                let stdout = String::from_utf8_lossy(&o.stdout);
+                let mut found = false;
+                for line in stdout.lines() {
+                    if let Ok(val) = serde_json::from_str::<Value>(line) {
+                        if let Some(mut r) = vcore::SubReport::from_json(&val) {
+                            r.name = format!("{name}:{}", r.name);
+                            out.push(r);
+                            found = true;
+                        }
+                    }
+                }
+                if !found {
+                    let mut r = vcore::SubReport::new(&name);
+                    r.inconclusive = Some(format!("HARNESS: no sub-report from {}: {}", exe.display(), String::from_utf8_lossy(&o.stderr).chars().take(600).collect::<String>()));
+                    out.push(r);
+                }
+            }
+            Err(e) => {
+                let mut r = vcore::SubReport::new(&name);
+                r.inconclusive = Some(format!("HARNESS: cannot run {}: {e}", exe.display()));
+                out.push(r);
+            }
+        }
+    }
+    out
+}
+
+/// `rt --sub-json <PROP> <tier>` (variant binaries): the property's sub-checks, one JSON line each.
+pub fn print_sub_reports(ctx: &Ctx) {
+    if crate::variant() == "nostd-nomutex" {
+        crate::model::NO_MUTEX.store(true, std::sync::atomic::Ordering::Relaxed);
+    }
+    let verdict: Verdict = match ctx.prop.as_str() {
+        "C01" => c01::run(ctx),
+        "C02" => c02::run(ctx),
+        "C03" => c03::run(ctx),
+        "C04" => c04::run(ctx),
+        "C07" => c07::run(ctx),
+        "C14" => c14::run(ctx),
+        "C18" => c18::run(ctx),
+        #[cfg(any(feature = "std", feature = "nostd-spin"))]
+        "C12" => c12::run(ctx),
+        _ => return,
+    };
+    for s in verdict.subs {
+        if s.name == "replay-corpus" || s.name == "compile-fail" || s.name.starts_with("fuzz") {
+            continue;
+        }
+        println!("{}", serde_json::to_string(&s.to_json()).unwrap());
+    }
 }
